@@ -583,20 +583,23 @@ def gen_cases(tier):
         # ---- N = 2: everything, including cancellation combined with a late arrival
         add(2, None, three, ov2)
         add(2, None, two, ov2[:4], late=1)
-        add(2, ['n-1_equal', 'n_equal', 'pairwise'], two, ov2[:4], cancel=0)
-        add(2, ['n-1_equal', 'n_equal'], two, [['hold', 'hold'], ['release', 'bcast_fail']], cancel=0, late=1)
+        add(2, ['n-1_equal', 'n_equal', 'pairwise'], two, [['hold', 'hold'], ['hold', 'release'], ['release', 'bcast_fail']], cancel=0)
+        add(2, ['n-1_equal'], two, [['hold', 'hold'], ['release', 'bcast_fail']], cancel=0, late=1)
         # ---- N = 3
-        add(3, None, two, ov3[:4])
-        add(3, ['n-1_equal', 'n_equal', 'pairwise'], two, [mixed3], late=2)
-        add(3, ['n-1_equal', 'pairwise'], two, [['release'] * 3], late=2)
-        add(3, ['n-1_equal', 'n_equal'], two, [['hold'] * 3], cancel=0)
+        add(3, None, two, [['hold'] * 3, ['release'] * 3])
+        add(3, ['n-1_equal', 'pairwise'], two, [['bcast_fail'] * 3])
+        add(3, ['n-1_equal', 'n_equal', 'pairwise'], two, [mixed3])
+        add(3, ['n-1_equal', 'pairwise'], two, [mixed3], late=2)
+        add(3, ['n-1_equal'], two, [['release'] * 3], late=2)
+        add(3, ['n_equal'], ['sqlite'], [['hold'] * 3], cancel=0)
+        add(3, ['n-1_equal'], ['prefer_confirmed'], [['hold'] * 3], cancel=0)
         # ---- N = 4
         add(4, None, three, [['release'] * 4])
-        add(4, ['n-1_equal', 'pairwise'], two, [['hold', 'hold', 'release', 'release']])
+        add(4, ['n-1_equal'], two, [['hold', 'hold', 'release', 'release']])
         # ---- N = 6, 12: at most one deviation from the default schedule
         add(6, ['n-1_equal', 'pairwise', 'big+dust'], two, [['release'] * 6], bound=1)
         add(6, ['n-1_equal', 'pairwise'], two, [(mixed3 * 2)], bound=1)
-        add(6, ['n-1_equal', 'pairwise'], two, [(mixed3 * 2)], cancel=0, bound=1)
+        add(6, ['n-1_equal'], two, [(mixed3 * 2)], cancel=0, bound=1)
         add(12, ['n-1_equal', 'pairwise', 'big+dust'], two, [['release'] * 12], bound=1)
         add(12, ['big+dust'], two, [(mixed3 * 4)], bound=1)
     else:
@@ -617,10 +620,12 @@ def gen_cases(tier):
         add(6, ['n-1_equal', 'pairwise', 'big+dust'], two, [['release'] * 6, mixed3 * 2], bound=2)
         add(6, ['n-1_equal', 'pairwise'], two, [mixed3 * 2], cancel=0, bound=1)
         add(12, ['n-1_equal', 'pairwise', 'big+dust'], two, [['release'] * 12], bound=2)
-        add(12, ['n-1_equal', 'big+dust'], two, [mixed3 * 4], bound=1)
+        add(12, ['n-1_equal'], ['prefer_confirmed'], [mixed3 * 4], bound=1)
+        add(12, ['big+dust'], two, [mixed3 * 4], bound=1)
     # ---- the same exploration without state pruning must agree (validation of the pruning)
     add(2, ['n_equal', 'pairwise'] if quick else None, two, [['hold', 'release']], cross_check=True)
-    add(2, ['n_equal'], ['prefer_confirmed'] if quick else two, [['bcast_fail', 'bcast_fail']], cross_check=True)
+    if not quick:
+        add(2, ['n_equal'], two, [['bcast_fail', 'bcast_fail']], cross_check=True)
     add(2, ['n-1_equal'], two, [['release', 'bcast_fail']], late=1, cross_check=True)
     add(2, ['pairwise'] if quick else ['n_equal'], ['prefer_confirmed'] if quick else two, [['hold', 'release']], cancel=0, cross_check=True)
     if not quick:
